@@ -135,3 +135,25 @@ async fn streaming_process(
 
     Ok(())
 }
+
+/// The real `streaming_process`, callable by the simulation harness (feature `verif`).
+#[cfg(feature = "verif")]
+pub fn verif_streaming_process(
+    writer: JournalWriter,
+    receiver: EventStreamReceiver,
+    journal_path: PathBuf,
+    flush_period: Duration,
+) -> std::pin::Pin<Box<dyn Future<Output = anyhow::Result<()>>>> {
+    Box::pin(async move { streaming_process(writer, receiver, &journal_path, flush_period).await })
+}
+
+/// The real `prune_journal`, callable by the simulation harness (feature `verif`).
+#[cfg(feature = "verif")]
+pub fn verif_prune_journal(
+    reader: &mut JournalReader,
+    writer: &mut JournalWriter,
+    live_job_ids: &Set<JobId>,
+    live_worker_ids: &Set<WorkerId>,
+) -> crate::Result<()> {
+    prune_journal(reader, writer, live_job_ids, live_worker_ids)
+}
